@@ -250,7 +250,7 @@ def elements_eval(chk, fi) -> Optional[str]:
         gap = _unreached(repo, it.cov, anchors)
         if gap:
             return f"the {n_cases} structures do not reach all of the code: {gap}"
-        one_way = _one_way_conditions(repo, it, anchors)
+        one_way, tolerated = _one_way_conditions(repo, it, anchors)
         if one_way:
             return f"a condition never took both truth values on the {n_cases} structures (its other side is not decided by them): {one_way}"
     rule = {"stems": "elements-eval-stems", "hairpins": "elements-eval-hairpins", "loops": "elements-eval-loops", "coverage": "elements-eval-coverage", "text": "elements-eval-text", "raise": "elements-eval-coverage", "result": "elements-eval-coverage"}
@@ -262,7 +262,8 @@ def elements_eval(chk, fi) -> Optional[str]:
             fi.where,
             f"BpSeq.elements interpreted on all {n_cases - len(SHAPES)} sets of pairs over 2..{MAXN} contiguous positions and {len(SHAPES)} larger named shapes up to {max(len(t) for t in SHAPES)} nt ({', '.join(f'{v} with a {k}' for k, v in shapes.items())}): stems = maximal stacked runs, hairpins = pairs "
             "enclosing only unpaired nucleotides, loops are closed cycles with unpaired interiors, every unpaired nucleotide in exactly one interior, every strand text is the slice of sequence and dot-bracket; "
-            "every statement of the interpreted code was reached",
+            "every statement of the interpreted code was reached and every condition took both truth values"
+            + (f" (except {'; '.join(tolerated)}: an equality between two positions read from the input, no size or constant involved)" if tolerated else ""),
         )
     return None
 
@@ -299,7 +300,59 @@ def _never_true_membership(fn, test) -> bool:
     return True
 
 
-def _one_way_conditions(repo, it, anchors) -> Optional[str]:
+def _input_only_equality(fn, test) -> bool:
+    """`a == b` / `a != b` between two local names that are only ever bound to values read from the input (loop and comprehension
+    targets, look-ups, attribute reads), with no numeric constant beyond 0/1 and no size (`len`, `count`) anywhere in their
+    definitions.  A condition of this kind that never took its other value does not split the inputs by size or by a threshold
+    (the classes the evaluation cannot see); it is recorded in the evidence and tolerated."""
+    import ast
+
+    from sa import astq
+
+    if not (isinstance(test, ast.Compare) and len(test.ops) == 1 and isinstance(test.ops[0], (ast.Eq, ast.NotEq)) and isinstance(test.left, ast.Name) and isinstance(test.comparators[0], ast.Name)):
+        return False
+    params = {a.arg for a in fn.args.args + fn.args.kwonlyargs + fn.args.posonlyargs}
+    par = astq.parents(fn)
+    for nm in (test.left.id, test.comparators[0].id):
+        if nm in params:
+            return False
+        bound = False
+        # the closest enclosing loop that binds the name shadows every other binding of it
+        scope = fn
+        cur = test
+        while id(cur) in par:
+            cur = par[id(cur)]
+            if isinstance(cur, ast.For) and nm in astq.target_names(cur.target):
+                scope = cur
+                break
+            if isinstance(cur, (ast.ListComp, ast.SetComp, ast.GeneratorExp, ast.DictComp)) and any(nm in astq.target_names(g.target) for g in cur.generators):
+                scope = cur
+                break
+        for n in ast.walk(scope):
+            if isinstance(n, (ast.For, ast.comprehension)) and nm in astq.target_names(n.target):
+                bound = True
+                src = [n.iter]
+            elif isinstance(n, ast.Assign) and any(nm in astq.target_names(t) for t in n.targets):
+                bound = True
+                src = [n.value]
+            elif isinstance(n, (ast.AugAssign, ast.AnnAssign, ast.NamedExpr)) and nm in astq.target_names(n.target):
+                return False
+            else:
+                continue
+            for v in src:
+                if isinstance(v, ast.Constant):
+                    return False
+                for x in ast.walk(v):
+                    if isinstance(x, ast.Constant) and isinstance(x.value, (int, float)) and not isinstance(x.value, bool) and abs(x.value) > 1:
+                        return False
+                    if isinstance(x, ast.Call) and (isinstance(x.func, ast.Name) and x.func.id in ("len", "sum", "max", "min") or isinstance(x.func, ast.Attribute) and x.func.attr in ("count", "__len__")):
+                        return False
+        if not bound:
+            return False
+    return True
+
+
+def _one_way_conditions(repo, it, anchors):
     """Atomic conditions of `if` / `while` tests, conditional expressions and and/or operands in the interpreted decomposition code
     that were evaluated but only ever came out one way.  Such a condition splits the inputs into a class the evaluation saw and one
     it did not (a size cap, a special case for long chains): the evaluation then says nothing about the unseen class."""
@@ -308,6 +361,7 @@ def _one_way_conditions(repo, it, anchors) -> Optional[str]:
     from sa.model import norm
 
     outcomes = getattr(it, "outcomes", set())
+    tolerated: List[str] = []
     seen: Dict[int, Set[bool]] = {}
     for nid, b in outcomes:
         seen.setdefault(nid, set()).add(b)
@@ -343,8 +397,11 @@ def _one_way_conditions(repo, it, anchors) -> Optional[str]:
                             continue
                         if _never_true_membership(f.node, a_):
                             continue
-                        return f"{f.qualname} line {getattr(a_, 'lineno', '?')}: `{norm(a_)[:70]}` was always {sorted(got)[0]}"
-    return None
+                        if _input_only_equality(f.node, a_):
+                            tolerated.append(f"`{norm(a_)[:50]}` in {f.qualname}")
+                            continue
+                        return f"{f.qualname} line {getattr(a_, 'lineno', '?')}: `{norm(a_)[:70]}` was always {sorted(got)[0]}", tolerated
+    return None, tolerated
 
 
 def _unreached(repo, cov: set, anchors) -> Optional[str]:
